@@ -1048,6 +1048,10 @@ def parse_left_assoc_binary_expr(toks):
     for i in range(1, len(toks), 2):
         op = Operator.binary_op_from_token(toks[i])
         node = BinaryOp(node, toks[i+1], op)
+        # the inner nodes of a chain (a + b + c) need a position too:
+        # diagnostics may be about them
+        node.loc_start = loc_start
+        node.loc_end = loc_end
     node.loc_start = loc_start
     node.loc_end = loc_end
     return node
